@@ -284,11 +284,12 @@ def _esc_text(v, numeric, cdata):
 
 
 class Spelling:
-    __slots__ = ("decl", "indent", "quote", "rev", "empty", "numeric", "cdata", "pad", "ascii")
+    __slots__ = ("decl", "indent", "quote", "rev", "empty", "numeric", "cdata", "pad", "ascii", "attrsep")
 
-    def __init__(self, decl=0, indent=0, quote='"', rev=0, empty=0, numeric=0, cdata=0, pad=0, ascii=1):
+    def __init__(self, decl=0, indent=0, quote='"', rev=0, empty=0, numeric=0, cdata=0, pad=0, ascii=1, attrsep=" "):
         self.decl, self.indent, self.quote, self.rev = decl, indent, quote, rev
         self.empty, self.numeric, self.cdata, self.pad, self.ascii = empty, numeric, cdata, pad, ascii
+        self.attrsep = attrsep  # white space between the tag name / attributes: blank, newline + indent, tab
 
     def key(self):
         return tuple(getattr(self, s) for s in self.__slots__)
@@ -314,7 +315,7 @@ def serialise(desc, sp=None):
         a = list(a)
         if sp.rev:
             a.reverse()
-        return "".join(" %s=%s%s%s" % (n, q, _esc_attr(v, q, sp.numeric), q) for n, v in a)
+        return "".join("%s%s=%s%s%s" % (sp.attrsep, n, q, _esc_attr(v, q, sp.numeric), q) for n, v in a)
 
     def text_s(t):
         # character references are not interpreted inside CDATA: no CDATA for text that will be asciified
@@ -355,6 +356,9 @@ def spellings(tier="quick"):
             yield Spelling(decl, indent, quote, rev, empty, numeric, cdata, pad, 1)
         yield Spelling(0, 0, '"', 0, 0, 0, 0, 0, 0)  # raw non-ASCII characters (str input)
         yield Spelling(1, 1, "'", 1, 2, 0, 1, 1, 0)
+        for sep in ("\n    ", "\t", "  ", "\r\n "):
+            yield Spelling(0, 1, '"', 0, 0, 0, 0, 0, 1, attrsep=sep)
+            yield Spelling(1, 0, "'", 1, 2, 0, 0, 1, 1, attrsep=sep)
         return
     yield Spelling()
     yield Spelling(1, 1, "'", 1, 1, 0, 0, 0, 1)
@@ -364,3 +368,5 @@ def spellings(tier="quick"):
     yield Spelling(2, 1, "'", 0, 1, 1, 0, 1, 1)
     yield Spelling(0, 0, "'", 1, 0, 0, 0, 1, 0)
     yield Spelling(3, 0, '"', 0, 1, 0, 0, 0, 1)
+    yield Spelling(0, 1, '"', 0, 0, 0, 0, 0, 1, attrsep="\n    ")  # one attribute per line
+    yield Spelling(1, 0, "'", 1, 2, 0, 0, 0, 1, attrsep="\t")
